@@ -63,6 +63,15 @@ def gen_history(rng):
     else:
         logz = rng.standard_normal(T) * 10 ** rng.uniform(0, 5)
     target = float(rng.choice([0.0, 1.0, rng.random(), betas[rng.integers(T)]]))
+    if rng.random() < 0.08:
+        # no mixture component of order one for (some of) the samples: every beta_t*logL - logZ_t of a sample lies between the smallest
+        # normal and the smallest subnormal double once exponentiated (-745 .. -708), e.g. a history without a prior iteration
+        betas = np.sort(rng.uniform(0.5, 1.0, T))
+        lvl = rng.uniform(720.0, 760.0)
+        logl = [-(lvl / betas[rng.integers(T)]) + rng.uniform(-12, 12, n) for n in ns]
+        logz = np.zeros(T) if rng.random() < 0.5 else rng.uniform(-3, 3, T)
+        kind, bmode, zk = "underflow-band", "no-prior", "small"
+        target = float(rng.choice([1.0, 0.75, betas[rng.integers(T)]]))
     if rng.random() < 0.12:
         # requested temperatures next to, but not at, the end points (a temperature is never "close enough" to 0 or 1)
         eps_t = float(rng.choice([1e-5, 3e-6, 1e-6, 1e-7, 1e-9, 2.0 ** -30, 1e-12, 2.0 ** -52]))
@@ -193,7 +202,9 @@ def check_history(h):
     # another history with the same number of iterations, other batch sizes and values
     if T <= 12 and N < 5000:
         r2 = np.random.default_rng(N * 31 + T)
-        ns2 = list(reversed(h["ns"])) if r2.random() < 0.5 else [int(r2.integers(1, 40)) for _ in range(T)]
+        # donor batch sizes: the same as before (same number of iterations AND of stored samples), reversed, or unrelated
+        rr = r2.random()
+        ns2 = list(h["ns"]) if rr < 0.35 else list(reversed(h["ns"])) if rr < 0.65 else [int(r2.integers(1, 40)) for _ in range(T)]
         logl2 = [r2.standard_normal(n) * 3.0 - 1.0 for n in ns2]
         betas2 = np.sort(r2.random(T))
         logz2 = r2.standard_normal(T)
@@ -207,7 +218,8 @@ def check_history(h):
             with tempfile.TemporaryDirectory(dir=str(OUT / "tmp")) as td, contextlib.redirect_stdout(io.StringIO()):
                 donor.save_state(os.path.join(td, "d.pkl"))
                 sm.load_state(os.path.join(td, "d.pkl"))
-        b3 = float(r2.random())
+        # the request after the replacement repeats an earlier request (same temperature, same normalisation) or is a new one
+        b3 = float(h["beta"]) if r2.random() < 0.5 else float(r2.random())
         try:
             with np.errstate(all="ignore"):
                 lw3, lz3 = sm.compute_logw_and_logz(b3)
